@@ -139,7 +139,7 @@ func cmdCheck(args []string) {
 	// budget and fewer concurrent queries before it is reported
 	var retry []*Obligation
 	for _, o := range obls {
-		if o.Result != nil && o.Goal != nil && (o.Result.Status == "unknown" || o.Result.Status == "timeout") {
+		if o.Result != nil && o.Goal != nil && !strings.HasPrefix(o.Kind, "unclaimed:") && (o.Result.Status == "unknown" || o.Result.Status == "timeout") {
 			o.Result = nil
 			retry = append(retry, o)
 		}
